@@ -32,39 +32,54 @@ struct Ev {
     int chain = 0;         // on fire: schedule a child with delay cwhen (0 = none, 1 = light child, 2 = heavy child)
     double cwhen = 0;
     int cancelOnFire = -1; // on fire: cancel the n-th event still queued in the scheduler (-1 = none)
-    int slot = 0;          // &slot is the event's unique arg
+    int slot = 0;          // index of the argument group; &groups[slot] is the event's arg
 };
+
+// Events with DIFFERENT handlers may legitimately share one argument object (cancel(func, arg) must match both);
+// at most one pending event per (handler, group).
+struct Group { int ids[3] = {-1, -1, -1}; };
 
 struct Case {
     EventScheduler *sched = nullptr;
     std::deque<Ev> evs;            // stable addresses
+    std::deque<Group> groups;      // stable addresses (event args)
     std::vector<int> log;          // ids in firing order (whole history)
     std::vector<int> batch;        // ids fired by the current drain
     long handlerCancels = 0, children = 0;
 };
 Case *Cur = nullptr;
 
-void onFire(void *arg);
-void h0(void *a) { onFire(a); }
-void h1(void *a) { onFire(a); }
-void h2(void *a) { onFire(a); }
+void onFire(int func, void *arg);
+void h0(void *a) { onFire(0, a); }
+void h1(void *a) { onFire(1, a); }
+void h2(void *a) { onFire(2, a); }
 EVH *const Handlers[3] = {h0, h1, h2};
 
 int scheduleEv(Case &c, int func, double when, int weight, int chain, double cwhen, int cancelOnFire) {
     c.evs.emplace_back();
     Ev &e = c.evs.back();
-    e.id = (int)c.evs.size() - 1; e.slot = e.id; e.func = func; e.when = when; e.weight = weight;
+    e.id = (int)c.evs.size() - 1; e.func = func; e.when = when; e.weight = weight;
+    // every other event tries to share the argument object of its predecessor (different handler, none pending there)
+    int g = -1;
+    if (e.id > 0 && (e.id & 1)) {
+        const int pg = c.evs[e.id - 1].slot;
+        const int prev = c.groups[pg].ids[func];
+        if (c.evs[e.id - 1].func != func && (prev < 0 || c.evs[prev].fired || c.evs[prev].cancelled)) g = pg;
+    }
+    if (g < 0) { c.groups.emplace_back(); g = (int)c.groups.size() - 1; }
+    e.slot = g;
+    c.groups[g].ids[func] = e.id;
     e.schedTime = current_dtime;
     e.strictDue = when > 0 ? current_dtime + when : current_dtime;
     e.codeKey = when > 0 ? current_dtime + when : 0;
     e.chain = chain; e.cwhen = cwhen; e.cancelOnFire = cancelOnFire;
-    c.sched->schedule("verif", Handlers[func], &e.slot, when, weight, false);
+    c.sched->schedule("verif", Handlers[func], &c.groups[g], when, weight, false);
     return e.id;
 }
 
-void onFire(void *arg) {
+void onFire(int func, void *arg) {
     Case &c = *Cur;
-    const int id = *static_cast<int *>(arg);
+    const int id = static_cast<Group *>(arg)->ids[func];
     Ev &e = c.evs[id];
     ++e.fired; e.firedAt = current_dtime;
     c.log.push_back(id); c.batch.push_back(id);
@@ -72,10 +87,10 @@ void onFire(void *arg) {
     if (e.cancelOnFire >= 0) {
         // cancel the n-th event that is still queued (find() tells; an event already dequeued for this batch is not)
         std::vector<int> queued;
-        for (auto &x : c.evs) if (!x.cancelled && !x.fired && c.sched->find(Handlers[x.func], &x.slot)) queued.push_back(x.id);
+        for (auto &x : c.evs) if (!x.cancelled && !x.fired && c.sched->find(Handlers[x.func], &c.groups[x.slot])) queued.push_back(x.id);
         if (!queued.empty()) {
             Ev &t = c.evs[queued[e.cancelOnFire % queued.size()]];
-            c.sched->cancel(Handlers[t.func], &t.slot);
+            c.sched->cancel(Handlers[t.func], &c.groups[t.slot]);
             t.cancelled = true; ++c.handlerCancels;
         }
     }
@@ -192,19 +207,19 @@ void run(Ctx &ctx, const std::string &w) {
                 const std::vector<int> p = pendingIds();
                 if (p.empty()) break; // contract: only existing events are cancelled
                 Ev &t = c.evs[p[o.n % p.size()]];
-                if (!sched.find(Handlers[t.func], &t.slot)) { fail("lost:not-scheduled", "event " + std::to_string(t.id) + " was neither fired nor cancelled but is not in the queue"); break; }
-                sched.cancel(Handlers[t.func], &t.slot);
+                if (!sched.find(Handlers[t.func], &c.groups[t.slot])) { fail("lost:not-scheduled", "event " + std::to_string(t.id) + " was neither fired nor cancelled but is not in the queue"); break; }
+                sched.cancel(Handlers[t.func], &c.groups[t.slot]);
                 t.cancelled = true; ++nCancel;
                 // cancelling one event leaves all others scheduled
-                for (int id : pendingIds()) if (!sched.find(Handlers[c.evs[id].func], &c.evs[id].slot)) { fail("cancel:lost-bystander", "after cancelling event " + std::to_string(t.id) + " event " + std::to_string(id) + " is no longer scheduled"); break; }
-                if (!dead && sched.find(Handlers[t.func], &t.slot)) fail("cancel:still-scheduled", "cancelled event " + std::to_string(t.id) + " is still found in the queue");
+                for (int id : pendingIds()) if (!sched.find(Handlers[c.evs[id].func], &c.groups[c.evs[id].slot])) { fail("cancel:lost-bystander", "after cancelling event " + std::to_string(t.id) + " event " + std::to_string(id) + " is no longer scheduled"); break; }
+                if (!dead && sched.find(Handlers[t.func], &c.groups[t.slot])) fail("cancel:still-scheduled", "cancelled event " + std::to_string(t.id) + " is still found in the queue");
                 break; }
             case 'F': {
                 const std::vector<int> p = pendingIds();
                 if (p.empty()) break;
                 Ev &t = c.evs[p[o.n % p.size()]];
-                if (!sched.find(Handlers[t.func], &t.slot)) fail("find:pending-not-found", "pending event " + std::to_string(t.id) + " is not found");
-                for (auto &e : c.evs) if ((e.fired || e.cancelled) && sched.find(Handlers[e.func], &e.slot)) { fail("find:stale", "fired/cancelled event " + std::to_string(e.id) + " is still found in the queue"); break; }
+                if (!sched.find(Handlers[t.func], &c.groups[t.slot])) fail("find:pending-not-found", "pending event " + std::to_string(t.id) + " is not found");
+                for (auto &e : c.evs) if ((e.fired || e.cancelled) && sched.find(Handlers[e.func], &c.groups[e.slot])) { fail("find:stale", "fired/cancelled event " + std::to_string(e.id) + " is still found in the queue"); break; }
                 break; }
             case 'T': current_dtime += o.delta; break;
             case 'R': {
@@ -223,7 +238,7 @@ void run(Ctx &ctx, const std::string &w) {
         // end of history: everything that was not cancelled must still be scheduled and fire exactly once
         if (!dead) {
             where = "final drain: ";
-            for (int id : pendingIds()) if (!sched.find(Handlers[c.evs[id].func], &c.evs[id].slot)) { fail("lost:not-scheduled", "event " + std::to_string(id) + " was neither fired nor cancelled but is not in the queue"); break; }
+            for (int id : pendingIds()) if (!sched.find(Handlers[c.evs[id].func], &c.groups[c.evs[id].slot])) { fail("lost:not-scheduled", "event " + std::to_string(id) + " was neither fired nor cancelled but is not in the queue"); break; }
             for (int round = 0; round < 4000 && !dead && !pendingIds().empty(); ++round) {
                 double latest = current_dtime;
                 for (int id : pendingIds()) latest = std::max(latest, c.evs[id].strictDue);
